@@ -8,6 +8,6 @@ mkdir -p .build evidence replays
 ./coq/gen_coqproject.sh
 timeout 3000 make -C coq -j16 > .build/coq-setup.log 2>&1 || { tail -30 .build/coq-setup.log; exit 1; }
 ./harness/gen_gomod.sh
-(cd harness && timeout 3000 go build -tags verif -o ../.build/vh ./cmd/vh)
+for d in harness/cmd/*/; do p=$(basename "$d" | tr a-z A-Z); (cd harness && timeout 3000 go build -tags verif -o "../.build/vh-$p" "./cmd/$(basename "$d")"); done
 (cd harness && timeout 3000 go build -tags verif -o ../.build/receptor github.com/ansible/receptor/cmd/receptor-cl)
 echo setup ok
